@@ -8,7 +8,7 @@
    started from any state satisfying the invariant - in particular from Atom(). *)
 From Coq Require Import Reals List Bool.
 From DS Require Import Base.RMat Base.C09_GNum Model.C09_Prims Gen.C09_AtomFormulas Model.C09_AtomADP
-  Proofs.C09_Algebra Proofs.C09_Machine Proofs.C09_Main.
+  Proofs.C09_Algebra Proofs.C09_Machine Proofs.C09_Main Proofs.C09_Ctor.
 Import ListNotations.
 Open Scope R_scope.
 
@@ -85,6 +85,27 @@ Theorem C09_stale_storage_harmless : forall eps s s' ops, obs_eq s s' ->
             rd_msdCart (RC eps) (run (RC eps) s ops) v = rd_msdCart (RC eps) (run (RC eps) s' ops) v.
 Proof. exact h_stale_storage_harmless. Qed.
 Print Assumptions C09_stale_storage_harmless.
+
+(* The constructor.  `init_Atom` is the translation of the CURRENT Atom.__init__ (its argument blocks in source order,
+   Atom(a) / __copy__ included); `ctor_spec` is the documented behaviour: ValueError (None) when both U and Uisoequiv are
+   given, otherwise the new atom - or the copy of the Atom given as atype - receives the assignments
+   U (flag on, tensor), Uisoequiv (flag off, value), lattice, and LAST the explicit anisotropy flag.
+   Holds for every number type (reals, floats): it is a statement about the order of the blocks. *)
+Theorem C09_constructor_is_documented_sequence : forall (T : Type) (C : cctx T) atype anisotropy U Uisoequiv lattice,
+  init_Atom C atype anisotropy U Uisoequiv lattice = ctor_spec C atype anisotropy U Uisoequiv lattice.
+Proof. exact @init_is_documented_sequence. Qed.
+Print Assumptions C09_constructor_is_documented_sequence.
+
+(* hence every constructed atom (symmetric U, lat_ok lattice, reachable source atom) is a reachable state: all clauses
+   above hold for it, in particular the flag argument preserves the equivalent isotropic value in the atom's lattice;
+   and copying is the identity on the displacement state *)
+Theorem C09_constructed_atoms_are_reachable : forall eps atype anisotropy U Uisoequiv lattice s,
+  ctor_args_ok eps atype U lattice -> init_Atom (RC eps) atype anisotropy U Uisoequiv lattice = Some s -> reach eps s.
+Proof. exact constructed_reachable. Qed.
+Print Assumptions C09_constructed_atoms_are_reachable.
+Theorem C09_copy_is_identity : forall (T : Type) (C : cctx T) (s : astate T), step C s OCopy = s.
+Proof. exact @copy_is_identity. Qed.
+Print Assumptions C09_copy_is_identity.
 
 (* the hypotheses are inhabited: Atom() is reachable, Lattice._epsilon of the source is positive, the unit cell and an
    oblique cell (gamma = 60 degrees) satisfy lat_ok, and a history on the oblique cell reaches an anisotropic state *)
